@@ -7,6 +7,13 @@ TB_COMMON = [
 ]
 
 HARNESSES = {
+    "ck": {
+        "module": "e2e-checksum", "pkg": ".", "test": "TestVerifChecksum",
+        "files": ["harness/e2e-checksum/zz_verif_ck_test.go"],
+        "corpus_glob": "*.ops", "corpus_dirs": [],
+        "episode_start": r"^ck ",
+        "tiers": {"quick": {"episodes": 1500}, "thorough": {"episodes": 40000, "seeds": 8}},
+    },
     "pool": {
         "module": "grpcgcp", "pkg": ".", "test": "TestVerifPool",
         "files": ["harness/grpcgcp/zz_verif_pool_test.go"], "rewrite": "vclock",
@@ -44,7 +51,19 @@ def pool_prop(thms, extra_assumptions=()):
     return {"harnesses": ["pool"], "lake_targets": ["GcpVerif"], "theorems": pool_thms(thms),
             "trusted_base": POOL_TB, "assumptions": list(extra_assumptions)}
 
+CK_TB = TB_COMMON + [
+    "tools/extract (go/parser): checksumField / checksumWireType are regenerated from e2e-checksum/main.go; Proofs/Checksum.lean computes the tag bytes from them",
+    "modelled, not verified: the wrapped proto codec (its output bytes are an input of the model), hash/crc32 (the Lean bitwise CRC-32C is the specification; agreement is tested on every run), proto.Buffer.EncodeVarint/EncodeFixed32",
+    "parse_marshal assumes the message type does not itself define field 2047 and that the payload is well-formed wire format",
+]
+
 PROPS = {
+    "C19": {"harnesses": ["ck"], "lake_targets": ["GcpVerif"],
+            "theorems": [("GcpVerif.Proofs.Checksum", "GcpVerif.Checksum." + n) for n in
+                         ["consts_tie", "tag_bytes", "marshal_bytes", "marshal_length", "marshal_payload_suffix",
+                          "marshal_error_passthrough", "parse_marshal", "unmarshal_is_inner", "readVarint_varint"]],
+            "leanchecker": ["GcpVerif.Proofs.Checksum"],
+            "trusted_base": CK_TB, "assumptions": ["the message type does not define field 2047 itself"]},
     "C01": pool_prop([]),
     "C02": pool_prop([], ["placement and increment are treated as one atomic step (exact for picks on one picker; picks on different pickers may interleave scan and increment)"]),
     "C03": pool_prop([], ["size bound: minSize <= maxSize and no Shutdown report for a current pool member (known finding K6)"]),
